@@ -570,6 +570,26 @@ func (r *rewriter) rewriteList(list []ast.Stmt) []ast.Stmt {
 			pre = append(pre, r.storeHooks(x.X, x.Pos(), x)...)
 		case *ast.ExprStmt:
 			if c, ok := x.X.(*ast.CallExpr); ok {
+				// standard-library functions that reorder a slice in place: a bulk store into that slice
+				if se, ok := c.Fun.(*ast.SelectorExpr); ok && len(c.Args) >= 1 {
+					if pk, ok := se.X.(*ast.Ident); ok {
+						if pn, isPkg := r.pi.info.Uses[pk].(*types.PkgName); isPkg {
+							inPlace := map[string]map[string]bool{
+								"sort":   {"Strings": true, "Ints": true, "Float64s": true, "Slice": true, "SliceStable": true, "Sort": true, "Stable": true},
+								"slices": {"Sort": true, "SortFunc": true, "SortStableFunc": true, "Reverse": true},
+							}
+							if inPlace[pn.Imported().Path()][se.Sel.Name] {
+								if t := r.pi.info.TypeOf(c.Args[0]); t != nil && pure(c.Args[0]) {
+									if _, isSlice := t.Underlying().(*types.Slice); isSlice {
+										site := newSite(x.Pos(), "bulk store (in-place reordering): "+exprString(x))
+										st.StoreSites++
+										pre = append(pre, call(sel("verifrt", "WS"), c.Args[0], intLit(site)))
+									}
+								}
+							}
+						}
+					}
+				}
 				if id, ok := c.Fun.(*ast.Ident); ok && len(c.Args) >= 1 {
 					if _, isBuiltin := r.pi.info.Uses[id].(*types.Builtin); isBuiltin {
 						switch id.Name {
